@@ -5,6 +5,7 @@ package main
 // L3 monitors on the recorded observations, and the observations rendered as a trace for the Coq model's `accepts`.
 
 import (
+	"bytes"
 	"encoding/json"
 	"fmt"
 	"math/rand"
@@ -39,23 +40,31 @@ func c12RunChild(scn c12Scn) *c12Obs {
 		sp := filepath.Join(d, "scn.json")
 		os.WriteFile(sp, b, 0o644)
 		cmd := exec.Command(os.Args[0], "c12-child", "out="+d, "replay="+sp)
-		cmd.Stdout, cmd.Stderr = nil, nil
+		var errb bytes.Buffer
+		cmd.Stdout, cmd.Stderr = nil, &errb
 		if err := cmd.Start(); err != nil {
 			continue
 		}
 		done := make(chan error, 1)
 		go func() { done <- cmd.Wait() }()
+		how := ""
 		select {
-		case <-done:
+		case werr := <-done:
+			how = fmt.Sprintf("exited: %v", werr)
 		case <-time.After(time.Duration(scn.GraceMs)*time.Millisecond + 40*time.Second):
 			cmd.Process.Kill()
 			<-done
+			how = "killed after its time limit"
 		}
 		var o c12Obs
 		ob, err := os.ReadFile(filepath.Join(d, "obs.json"))
 		os.RemoveAll(d)
 		if err != nil || json.Unmarshal(ob, &o) != nil {
-			o = c12Obs{Scn: scn, Err: "child produced no observations (killed or crashed)", ReturnedT: -1}
+			tail := errb.String()
+			if len(tail) > 600 {
+				tail = tail[len(tail)-600:]
+			}
+			o = c12Obs{Scn: scn, Err: "child produced no observations (" + how + "); stderr tail: " + tail, ReturnedT: -1}
 			return &o // not retried: a server that dies or hangs in its shutdown is a finding
 		}
 		if o.Err == "" {
@@ -107,7 +116,11 @@ func c12Monitor(o *c12Obs) (fails []Failure, timing map[string]bool) {
 		count[key]++
 	}
 	if o.ReturnedT < 0 {
-		add("shutdown/never-returns", fmt.Sprintf("tars.Run had not returned %d ms after the grace timeout of %d ms", 6000, scn.GraceMs), false)
+		what := "tars.Run (shutdown by signal)"
+		if scn.Signal == "DIRECT" {
+			what = "TarsServer.Shutdown(ctx)"
+		}
+		add("shutdown/never-returns", fmt.Sprintf("%s had not returned %d ms after the end of its grace period / context of %d ms", what, 6000, scn.GraceMs), false)
 		return
 	}
 	dur := o.ReturnedT - o.TriggerT
@@ -127,6 +140,12 @@ func c12Monitor(o *c12Obs) (fails []Failure, timing map[string]bool) {
 	for ci, cs := range scn.Conns {
 		if cs.Half {
 			expectCtx = true
+		}
+		if cs.ReadDelayMs < 0 {
+			// a client that never reads: its bulk response blocks in Write, the connection never drains and the
+			// client observes nothing
+			expectCtx = true
+			continue
 		}
 		all := append(append([]int{}, cs.Pre...), cs.Post...)
 		for r, d := range all {
@@ -281,7 +300,7 @@ func c12Coq(c *c12Case) string {
 
 func c12Class(c *c12Case) string {
 	s := c.Scn
-	pre, post, half, never := 0, 0, 0, 0
+	pre, post, half, never, long, slow := 0, 0, 0, 0, 0, 0
 	for _, cs := range s.Conns {
 		pre += len(cs.Pre)
 		post += len(cs.Post)
@@ -292,6 +311,12 @@ func c12Class(c *c12Case) string {
 			if d < 0 {
 				never++
 			}
+			if d >= 2000 {
+				long++
+			}
+		}
+		if cs.ReadDelayMs != 0 {
+			slow++
 		}
 	}
 	b := func(n int) string {
@@ -303,7 +328,7 @@ func c12Class(c *c12Case) string {
 		}
 		return "3+"
 	}
-	return fmt.Sprintf("pool=%d conns=%s pre=%s post=%s half=%d never=%d phase=%s sig=%s cap=%v", s.Pool, b(len(s.Conns)), b(pre), b(post), half, never, s.Phase, s.Signal, s.QueueCap > 0)
+	return fmt.Sprintf("pool=%d conns=%s pre=%s post=%s half=%d never=%d long=%d slow=%d phase=%s sig=%s cap=%v", s.Pool, b(len(s.Conns)), b(pre), b(post), half, never, long, slow, s.Phase, s.Signal, s.QueueCap > 0)
 }
 
 func c12Gen(tier string, rng *rand.Rand) []c12Case {
@@ -339,6 +364,19 @@ func c12Gen(tier string, rng *rand.Rand) []c12Case {
 			add(c12Scn{Pool: pool, Signal: sigs[(pi+1)%3]})
 		}
 		add(c12Scn{Pool: pool, Late: true, Conns: []c12ConnScn{{}, {}}})
+		if pool != 4 {
+			// a handler that outlives the poller's idle threshold (2 s): its connection stays open until it is answered
+			add(c12Scn{Pool: pool, GraceMs: 8000, Conns: []c12ConnScn{{Pre: []int{2600}}, {Pre: []int{0}}}})
+			// a slow reader: the 4 MB response blocks in Write (64 KB send buffer) until the client reads, 1.5 s after the trigger
+			add(c12Scn{Pool: pool, SmallBuf: true, Conns: []c12ConnScn{{Pre: []int{0}, Bulk: 4 << 20, ReadDelayMs: 1500}}})
+			// TarsServer.Shutdown called directly with a context: ended by the context (handler that never returns; half a
+			// request), or drained
+			add(c12Scn{Pool: pool, Signal: "DIRECT", GraceMs: 2500, Conns: []c12ConnScn{{Pre: []int{-1}}, {Pre: []int{50}}}})
+			add(c12Scn{Pool: pool, Signal: "DIRECT", GraceMs: 2500, Conns: []c12ConnScn{{Half: true}}})
+			// ... and a client that never reads its 4 MB response: the close message blocks behind it
+			add(c12Scn{Pool: pool, Signal: "DIRECT", GraceMs: 2500, SmallBuf: true, Conns: []c12ConnScn{{Pre: []int{0}, Bulk: 4 << 20, ReadDelayMs: -1}}})
+			add(c12Scn{Pool: pool, Signal: "DIRECT", Conns: []c12ConnScn{{Pre: []int{50, 300}, Post: []int{0}, PostDelayMs: 50}, {}}})
+		}
 		if pool > 0 {
 			// tiny job queue: the receive loop blocks in handleConn
 			add(c12Scn{Pool: pool, QueueCap: 1, Phase: "sent", Conns: []c12ConnScn{{Pre: []int{100, 100, 100, 100, 100, 100}, Pipelined: true}}})
